@@ -387,8 +387,26 @@ func solve(query string, timeoutMs int, all bool, which []int, expectSat bool) s
 		}()
 	}
 	res := solveResult{Verdict: "unknown", PerSolv: map[string]string{}}
-	for range which {
-		x := <-ch
+	// all-solver mode: once one solver has decided, the others get a grace period (five times its time, at least
+	// 30 s) to agree or disagree; after that they count as "no answer" - waiting out the full budget for a solver that
+	// will not answer adds nothing to the cross-check.
+	var grace <-chan time.Time
+	for k := 0; k < len(which); k++ {
+		var x r
+		select {
+		case x = <-ch:
+		case <-grace:
+			cancel()
+			k = len(which)
+			continue
+		}
+		if all && grace == nil && (x.v == "sat" || x.v == "unsat") {
+			g := 5 * time.Since(start)
+			if g < 30*time.Second {
+				g = 30 * time.Second
+			}
+			grace = time.After(g)
+		}
 		res.PerSolv[x.name] = x.v
 		if x.v == "sat" || x.v == "unsat" {
 			if res.Verdict == "sat" || res.Verdict == "unsat" {
